@@ -69,6 +69,15 @@ CHECKS = {
    technique="exhaustive crash-point enumeration: strace of the real write paths, every syscall prefix materialised as process-kill / power-loss / torn-write images, each reopened by a fresh process and compared with the acknowledged history",
    text="Four scripted histories over the real write paths (Store API; 12 KiB frames whose batches exceed fjall's 8 KiB buffer; the HTTP routes with CAS bodies; forced memtable flushes with segment files, journal rotation and manifest renames) are traced at system-call granularity. For every prefix of the store-directory mutations from the first acknowledged operation on, the process-kill image and - wherever the journal holds unsynced bytes - the power-loss image and torn tails of the last unsynced write are reopened: the store must open, every acknowledged append/remove/import must be reflected, the operation in flight must be all-or-nothing across by-id / all-stream / context-stream / head, the registry must equal the stored registrations, and on kill images every visible hash must have its content.",
    note="Trusted: strace's rendering (checked: the interpreted final state equals the real directory byte for byte), fjall's recovery code is the subject not the model. Power loss is modelled as loss of unsynced journal suffixes and torn tails, not arbitrary sector reordering; directory entries are kept; crash points inside the first creation of the store directory and double faults are not enumerated."),
+
+ "C15": dict(engine="E5-lifecycle", cat="model_checking", ref="DESIGN.md §5 C15",
+   technique="bounded exhaustive enumeration of handler programs (script grammar) executed by the real handler machinery, per-call oracle from the statement",
+   text="Every handler script of the grammar {0..2 explicit .append x flags (none, --meta colliding with the stamps, --ttl, --context other)} x {return nothing/string/int/float/bool/list/record} x {return_options none/suffix/ttl head/ttl time/ephemeral} x {failure none/before/between/after the appends} is registered on a fresh store behind the real handlers::serve, triggered once and flushed by a sentinel: order, stamps overriding user meta, forced context, TTLs, CAS content == JSON rendering, nothing at all on failure plus exactly one unregistered with the error.",
+   note="Trusted: nushell (explored through). The serve loop's schedule is the OS's; programs are enumerated, schedules are C03/C16's. quick = every value of every dimension and all pairs with the append shape; thorough = the full product."),
+ "C16": dict(engine="E2-sched+E5-lifecycle", cat="model_checking", ref="DESIGN.md §5 C16",
+   technique="all interleavings of the handler start-up (spawner announce / task start+subscribe / client) under the controlled scheduler, plus exhaustive lifecycle histories against a reference model",
+   text="(a) every schedule of {spawner: announce .registered} x {handler task start} x {client: wait until .registered is visible, append trigger} for resume modes tail / head / after-id on the real Handler::spawn, then a flush frame: the trigger must be processed exactly once. (b) every history of register / invalid register / unregister / ok trigger / failing trigger over 2 names x 2 contexts up to depth 3 (4 thorough): exactly one unregistered per stop with id (and error), the active instance and nobody else answers later frames.",
+   note="(a) scheduling points are the verif hooks in Handler::spawn. (b) the serve loops' schedule is the OS's; absence of an answer is decided after all expected answers arrived plus a 40 ms grace period (a slower zombie would be missed, never a false alarm)."),
 }
 NOT_YET = {}
 ALL = ["C%02d" % i for i in range(1, 21)]
@@ -107,6 +116,8 @@ def main():
             "add_only": True,
         },
         "engines": [
+            {"name": "E5-lifecycle", "path": "engine/src/e5.rs, engine/src/c15.rs, engine/src/c16.rs", "serves_properties": ["C15", "C16"],
+             "kind_free_text": "real handlers/generators/commands serve loops on a real store, driven through the Store API, sentinel-based quiescence"},
             {"name": "E3-crash", "path": "crash/crashenum.py, engine/src/crash.rs", "serves_properties": ["C04"],
              "kind_free_text": "strace-based crash-image enumerator (python) + traced driver and recovery checker (Rust)"},
             {"name": "E4-http", "path": "engine/src/http.rs, engine/src/e4.rs", "serves_properties": ["C13", "C12"],
